@@ -338,10 +338,9 @@ def make_source(kind, encoding="utf-8"):
 
 NEUTRAL_OPEN_OPTIONS = {
     # options of open() / io.TextIOWrapper that do not change WHICH text is delivered or whether undecodable bytes raise: buffering
-    # strategy, explicit defaults, and universal-newline variants that still end a line at every "\n" (the line grammar takes "\r"
-    # as a blank).  Everything else -- errors="ignore"/"replace"/..., newline="\r", a different encoding -- counts.
+    # strategy and explicit defaults.  Everything else -- errors="ignore"/"replace"/..., newline="\r", a different encoding -- counts.
     "line_buffering": (True, False), "write_through": (True, False), "buffering": (-1, 1, 4096, 8192, 65536, 1 << 20), "errors": (None, "strict"),
-    "newline": (None, "", "\n", "\r\n"), "closefd": (True,), "opener": (None,),
+    "newline": (None,), "closefd": (True,), "opener": (None,),  # newline="" / "\n" keep "\r" in comment texts of CRLF files, "\r\n" reads an LF file as ONE line: not neutral
 }
 
 
